@@ -157,6 +157,17 @@ def check_input(input_data, y=None, preprocessor=None,
   return input_data if y is None else (input_data, y)
 
 
+def _integers_to_float(input_data, args_for_sk_checks):
+  # with dtype='numeric' scikit-learn preserves integer dtypes, but integer
+  # arithmetic wraps around (differences of unsigned values, products of
+  # small integer types), so we compute on the same numbers in floating point
+  if (args_for_sk_checks['dtype'] == 'numeric'
+          and getattr(input_data, 'dtype', None) is not None
+          and input_data.dtype.kind in 'iub'):
+    input_data = input_data.astype(np.float64)
+  return input_data
+
+
 def check_input_tuples(input_data, context, preprocessor, args_for_sk_checks,
                        tuple_size):
   preprocessor_has_been_applied = False
@@ -175,6 +186,7 @@ def check_input_tuples(input_data, context, preprocessor, args_for_sk_checks,
       make_error_input(200, input_data, context)
   input_data = check_array(input_data, allow_nd=True, ensure_2d=False,
                            **args_for_sk_checks)
+  input_data = _integers_to_float(input_data, args_for_sk_checks)
   # we need to check num_features because check_array does not check it
   # for 3D inputs:
   if args_for_sk_checks['ensure_min_features'] > 0:
@@ -215,6 +227,7 @@ def check_input_classic(input_data, context, preprocessor, args_for_sk_checks):
 
   input_data = check_array(input_data, allow_nd=True, ensure_2d=False,
                            **args_for_sk_checks)
+  input_data = _integers_to_float(input_data, args_for_sk_checks)
   if input_data.ndim != 2:
     # we have to ensure this because check_array above does not
     if preprocessor_has_been_applied:
